@@ -74,8 +74,16 @@ Fixpoint reg_from (n : nat) (h : list (nat * consumer)) (cs : list consumer) : l
   end.
 Definition reg_ids (gs : gstate) : list nat := reg_from 0 (g_hold gs) (t_cons (g_st gs)).
 
-Definition set_store (st : tstate) (s : list str) : tstate :=
-  mkt s (t_ls st) (t_loaded st) (t_np st) (t_ph st) (t_cons st) (t_fly st) (t_base st).
+(* another instance stores [s] before the loader has read the storage: the
+   storage grows, and so does the ghost [c_start] of every load() that is
+   already waiting - it is going to yield that entry too ([c_start] = the
+   entries stored or being stored when the load() started, plus those other
+   instances stored between then and the loader's read) *)
+Definition add_start (s : str) (c : consumer) : consumer :=
+  if c_fin c then c else mkc (c_iy c) (c_p0 c) (c_out c) (c_fin c) (c_ev c) (c_start c ++ [s]).
+Definition set_store (st : tstate) (s : str) : tstate :=
+  mkt (t_store st ++ [s]) (t_ls st) (t_loaded st) (t_np st) (t_ph st) (map (add_start s) (t_cons st))
+      (t_fly st) (t_base st).
 
 Definition lset_of (l : list nat) : gloop := match l with [] => LNone | _ => LSet l end.
 
@@ -102,7 +110,7 @@ Definition gstep (gs : gstate) (l : glabel) : gstate :=
   | GSto s => mkg (tstep st (ASto s)) (g_loop gs) (g_hold gs) (g_real gs ++ [(false, s)])
   | GOther s =>
       match t_ph st with
-      | P0 | P2 => mkg (set_store st (t_store st ++ [s])) (g_loop gs) (g_hold gs) (g_real gs ++ [(false, s)])
+      | P0 | P2 => mkg (set_store st s) (g_loop gs) (g_hold gs) (g_real gs ++ [(false, s)])
       | _ => mkg st (g_loop gs) (g_hold gs) (g_real gs ++ [(true, s)])
       end
   end.
@@ -116,16 +124,15 @@ Definition own_view (r : list (bool * str)) : list str := map snd (filter (fun p
 (* The schedules the safety theorem covers: [ok_label] of Model/C13_Threaded.v
    for load() / append_string (one append_string at a time, none of its halves
    between the first load()'s reset and the loader's reading of the storage,
-   the first load() not inside one); another instance's store not in that
-   window either (there it changes what the waiting load() calls are about to
-   yield: see design.d/C13.md, round 6). *)
+   the first load() not inside one); another instance's store at ANY moment
+   (round 7: in that window it is part of what the loader reads, and the
+   waiting load() calls' ghost [c_start] follows, see [add_start]). *)
 Definition gok_label (gs : gstate) (l : glabel) : bool :=
   let st := g_st gs in
   match l with
   | GStart => ok_label st CStart
   | GIns s => ok_label st (AIns s)
   | GSto s => ok_label st (ASto s)
-  | GOther _ => negb (is_P2 (t_ph st))
   | _ => true
   end.
 Fixpoint gok_sched (gs : gstate) (sched : list glabel) : bool :=
